@@ -20,4 +20,27 @@ def run(ctx):
         n = ccl.rule_ccl(ctx, cfg, prog)
         ctx.floor('trace events[%s]' % cfg, n, 250)
         ccl.rule_product_shape(ctx, cfg, prog)
+        # the C entry points of the pairing product are single forwards of all their arguments to the C++ routines decided above
+        from .. import wrap
+        from ..facts import loc_str
+        nwp = 0
+        for f in wrap.wrappers(prog):
+            if f['name'] not in ('embedded_pairing_bls12_381_pairing', 'embedded_pairing_bls12_381_pairing_sum',
+                                 'embedded_pairing_bls12_381_prepared_pairing', 'embedded_pairing_bls12_381_g2prepared_prepare'):
+                continue
+            nwp += 1
+            m = wrap.WrapperModel(prog, f)
+            callees = [(fw.callee or {}).get('name') for fw in m.forwards]
+            used = set()
+            for fw in m.forwards:
+                for (slot, idx, root, path, kind) in fw.bindings:
+                    if kind == 'param':
+                        used.add(root)
+            ok = not m.errors and len(m.forwards) == 1 and callees[0] in ('pairing', 'pairing_product', 'prepare') and all(p_ in used for p_ in m.params)
+            ctx.ob('R-CCL', ok, 'ccl|cwrapper|%s' % f['name'], loc_str(f),
+                   '%s must hand all of its pairs to ONE call of the C++ pairing product (found: %s%s): anything else (several Miller loops, a '
+                   'subset of the pairs) is not the product of the individual pairings for every list length' % (
+                       f['name'], callees, '; ' + '; '.join(e[1] for e in m.errors[:2]) if m.errors else ''), cfg=cfg,
+                   sample=dict(config=cfg, wrapper=f['name'], forwards=callees))
+        ctx.floor('C pairing entry points[%s]' % cfg, nwp, 3)
         guards.g1_miller_loop(ctx, cfg, prog)
